@@ -28,7 +28,7 @@ NS = [1, 2, 3, 5, 9, 20]
 MS = [1, 2, 3, 6]
 P_KINDS = ['identity', 'diag1e10', 'dense1e2', 'dense1e10', 'rank_n_1', 'rank1', 'zero']
 H_KINDS = ['selector', 'dense', 'repeated', 'zero_row']
-R_KINDS = ['diag', 'dense']
+R_KINDS = ['diag', 'dense', 'block']
 R_SCALES = [1e-8, 1.0, 1e8]
 XZ_KINDS = ['unit', 'dense', 'dense1e6']
 
@@ -82,6 +82,10 @@ def build(case):
     else:
         B = np.array([[((i * 3 + j * 2) % 5) - 2.0 for j in range(m)] for i in range(m)])
         R = (B @ B.T / 4 + np.eye(m)) * rs
+        if case['R'] == 'block' and m > 1:
+            # the first sensor is independent of the others, which are correlated among themselves
+            R[0, 1:] = 0.0
+            R[1:, 0] = 0.0
     xz = case['xz']
     if xz == 'unit':
         x = np.zeros(n)
@@ -175,6 +179,32 @@ def run_case(case):
     if ew > tolw:
         v('c07-innovation', 'innovation differs from L^-1 (z - Hx), L lower Cholesky of S, by %.3e (tol %.1e); '
           'got %s expected %s' % (ew, tolw, inn[:4].tolist(), w[:4].tolist()))
+    # change of units: observations scaled by D, states by E (powers of two: exact in binary floating point).
+    # z' = D z, H' = D H E^-1, R' = D R D, x' = E x, P' = E P E describe the same estimation problem, so the posterior
+    # is E x+, E P+ E and the whitened innovation is unchanged.  This decides the badly scaled problems (one coarse
+    # sensor, R ~ 1e8, processed jointly with precise correlated ones, R ~ 1e-8; states in metres and radians) through
+    # the exact oracle of the well scaled one; anything that compares entries of S, P or R with each other, or with a
+    # constant, is not invariant.
+    for variant, (dz, dx) in enumerate((([13] + [-13 + (i % 3) for i in range(1, m)], [(-9, 4, 11, 0, -3)[i % 5] for i in range(n)]),
+                                        ([-13] + [13 - (i % 2) for i in range(1, m)], [0] * n))):
+        d, e_ = 2.0 ** np.array(dz, dtype=float), 2.0 ** np.array(dx, dtype=float)
+        D, E, Ei = np.diag(d), np.diag(e_), np.diag(1.0 / e_)
+        try:
+            xs_, Ps_u, inn_u = kalman.correct(E @ x, E @ P @ E, D @ z, D @ H @ Ei, D @ R @ D)
+        except Exception as ex_:  # noqa
+            v('c07-units:exception', 'after a change of units (variant %d) correct raised %s: %s'
+              % (variant, type(ex_).__name__, str(ex_)[:100]))
+            continue
+        # compared, in the original units, with the exact posterior under the tolerances of the original problem (the
+        # library's arithmetic is in fact bit-for-bit equivariant; nothing here relies on that)
+        dxs = np.abs(Ei @ xs_ - xe)
+        dPs = np.abs(Ei @ Ps_u @ Ei - Pe)
+        dws = np.abs(inn_u - w)
+        tight('units', max(dxs.max() / tolx, dPs.max() / tolP, dws.max() / tolw))
+        if (dxs > tolx).any() or (dPs > tolP).any() or (dws > tolw).any():
+            v('c07-units', 'after a change of units (observations x 2^%s, states x 2^%s) the result is not the posterior any more: mean off by %.3e, '
+              'covariance by %.3e, whitened innovation by %.3e (in the original units)' % (dz, dx, dxs.max(), dPs.max(), dws.max()))
+        stats['unit_changes'] = stats.get('unit_changes', 0) + 1
     # order independence over independent blocks (block-diagonal R)
     n_orders = 0
     if case['R'] == 'diag' and m > 1:
